@@ -1057,6 +1057,14 @@ func (f *frame) loopScope(li *loopInfo, st *State, ov map[ssa.Value]Sym) *Scope 
 			}
 		}
 	}
+	if li.blk != nil && li.blk.snap != nil {
+		// loop inside a go-inline section: old() is the state at the start of the section, parameters are the
+		// section's bindings
+		sc.old = li.blk.snap
+		for k, v := range li.blk.vars {
+			sc.vars[k] = v
+		}
+	}
 	sc.resolver = func(name string) (tv, bool) {
 		v := f.resolveLocal(name, li.header)
 		if v == nil {
